@@ -9,6 +9,8 @@ From J5V.lib Require Import Outcome Strcase.
 From J5V.gen Require MapRangeGen SetExtGen StateGen.
 From J5V.model Require Import Desc J5sAst J5sWalk J5sConvert CmpbOrder CmpbInstance.
 From J5V.proofs Require Import CmpbOrderProofs CmpbComposeProofs CmpbStateProofs.
+From J5V.model Require ProtoPrintFile.
+From J5V.proofs Require CmpbPrintBridgeProofs.
 Import ListNotations.
 Local Open Scope N_scope.
 
@@ -199,6 +201,20 @@ Theorem C14_emitted_option_indexes_distinct :
     ["*descriptorpb.MessageOptions"; "*descriptorpb.ServiceOptions"; "*descriptorpb.MethodOptions"; "*descriptorpb.EnumOptions"]%string = true.
 Proof. exact emitted_option_indexes_distinct. Qed.
 Print Assumptions C14_emitted_option_indexes_distinct.
+
+(* the same on the `tool` family's model of the printer (model/ProtoPrintFile.v, tied to protoprint by C05): the
+   option lists are the only place where protobuf's Range order enters the printed text; what printSection lays
+   out (lay_sopts: Go's insertion sort under optionsByLocation.Less, then parseOption) and what printFieldStyle
+   lays out (lay_fopts: re-sorted by printed name) do not depend on the order the options arrive in, whenever
+   their sort keys (line, index, full name) are distinct *)
+Theorem C14_printer_model_options_order_free : forall o1 o2,
+  Permutation o1 o2 ->
+  (forall a b, In a o1 -> In b o1 -> CmpbPrintBridgeProofs.dopt_key a = CmpbPrintBridgeProofs.dopt_key b -> a = b) ->
+  ProtoPrintFile.lay_sopts o1 = ProtoPrintFile.lay_sopts o2 /\ ProtoPrintFile.lay_fopts o1 = ProtoPrintFile.lay_fopts o2.
+Proof.
+  exact (fun o1 o2 Hp Hd => conj (CmpbPrintBridgeProofs.lay_sopts_perm o1 o2 Hp Hd) (CmpbPrintBridgeProofs.lay_fopts_perm o1 o2 Hp Hd)).
+Qed.
+Print Assumptions C14_printer_model_options_order_free.
 
 (* field and enum-value options are re-sorted by qualified name: independent of Range order *)
 Theorem C14_print_field_options : forall l1 l2,
